@@ -30,3 +30,10 @@ RULE += (" Sub-check time_slice_helper: BasicEventHandler._time_slice_all_units_
          "incl. exactly 0.0 and the largest float below L, velocity components incl. the 1e-17..1e-13 residues of rotations "
          "by multiples of 90 degrees, time displacements over twelve decades); oracle (Fractions): every coordinate in "
          "[0, L) and congruent to p + v*dt modulo L, resting units untouched, time stamp == event time.")
+
+from . import C07_eoc  # noqa: E402  (handler part: end-of-chain out-states in point-mass and molecule mode, 2-D and 3-D)
+CHECKS = CHECKS + C07_eoc.CHECKS
+RULE += (" Sub-check end_of_chain_out_state: the periodic-direction (3-D) and sequential-direction (2-D) end-of-chain "
+         "handlers on directly drawn branches in point-mass and molecule mode; after the event every moving point mass "
+         "has the chain's speed and the event time, an object's velocity is the weighted sum of its point masses', "
+         "positions stay in the box.")
